@@ -127,6 +127,31 @@ var relevantProbes = map[string][]string{
 	"C20": {"fault_crash_restart", "boundary_msg", "g_requests_issued"},
 }
 
+// requiredProbes: reach probes that a healthy profile of the property fires in every batch of runs (DESIGN §7 table);
+// a probe stuck at zero is reported in the evidence and on stderr (a defect of the profile, not of the code under test).
+var requiredProbes = map[string][]string{
+	"C01": {"g_requests_issued", "g_requests_expired", "g_resp_malformed", "ok_withdraw", "g_paused_for_funds", "fault_export_and_continue"},
+	"C02": {"g_resp_valid", "g_resp_malformed", "g_resp_none", "g_requests_expired", "probe_tax_positive", "probe_tax_zero", "probe_refund_bad_output", "ok_withdraw"},
+	"C03": {"probe_refund_ok", "probe_refund_exact_instant", "ok_enable", "ok_update", "g_slash", "fault_export_and_continue", "fail_refund"},
+	"C04": {"probe_multi_slash_one_block", "probe_slash_disable", "probe_slash_disabled_binding", "probe_slash_refunded_binding", "g_resp_malformed"},
+	"C05": {"c05_refused_update", "c05_refused_disable", "c05_refused_enable", "c05_refused_refund", "c05_refused_withdraw", "c05_refused_pause", "c05_refused_start", "c05_refused_kill", "c05_refused_updctx", "c05_refused_respond", "c05_refused_bind", "c05_refused_define", "c05_ok_update", "c05_ok_pause", "c05_ok_respond", "ok_mod_create", "fault_export_and_continue"},
+	"C06": {"probe_batch_issued", "probe_batch_skipped", "probe_paused_for_funds", "probe_issued_subset"},
+	"C07": {"probe_priced_request", "probe_time_window_start", "probe_time_window_end", "probe_time_window_inside", "probe_volume_at_threshold", "probe_volume_above_threshold", "probe_zero_price", "probe_super_request"},
+	"C08": {"probe_response_accepted", "probe_response_at_expiry_height", "probe_response_refused_not_pending", "probe_response_refused_stranger", "probe_response_refused_unknown"},
+	"C09": {"probe_ctx_pause_ok", "probe_ctx_start_ok", "probe_ctx_kill_ok", "probe_ctx_updctx_ok", "g_paused_for_funds"},
+	"C10": {"probe_cadence_checked", "probe_freq_eq_timeout", "probe_first_batch_checked", "targeted_pause_last_batch", "g_second_batch"},
+	"C11": {"ok_start", "ok_pause", "ok_kill", "g_requests_issued", "fault_export_and_continue"},
+	"C12": {"probe_callback_with_error", "probe_callback_without_error", "probe_callback_on_skip", "probe_state_callback"},
+	"C13": {"probe_withdraw_provider_mode", "probe_withdraw_owner_mode", "probe_withdraw_to_other_address", "probe_withdraw_paid", "probe_odd_length_provider_response"},
+	"C14": {"ok_update", "ok_enable", "fail_update", "fail_enable", "fail_bind", "g_slash", "fault_deposit_param_change", "probe_below_minimum_after_param_raise"},
+	"C15": {"probe_define_ok", "probe_listing_checked", "fail_define", "fail_bind"},
+	"C16": {"probe_batch_expired_cleaned", "probe_finished_context_removed", "g_batch_skipped"},
+	"C17": {"probe_query_definition", "probe_query_bindings", "probe_query_requests", "probe_query_responses", "probe_query_earned_fees", "probe_query_nonexisting", "probe_query_request", "probe_query_response"},
+	"C18": {"probe_context_id_checked", "probe_request_id_checked", "probe_scans_checked"},
+	"C19": {"probe_export", "probe_export_with_pending_requests", "probe_export_with_earnings", "probe_export_with_withdraw_address", "probe_export_ctx_running", "probe_export_ctx_paused", "probe_export_ctx_completed", "probe_export_roundtrip_ok", "probe_export_continue_ok"},
+	"C20": {"fault_crash_restart", "fault_crash_mid_block", "boundary_msg", "g_requests_issued"},
+}
+
 func nontrivial(prop string, st *RunStats) bool {
 	for _, p := range relevantProbes[prop] {
 		if st.C[p] > 0 {
@@ -457,6 +482,9 @@ func cmdCheck(args []string) {
 		exit = 1
 	}
 	fmt.Printf("runs=%d blocks=%d txs=%d steps=%d distinct_nontrivial=%d states=%d transitions=%d wall=%.1fs\n", a.runs, a.blocks, a.txs, a.steps, len(a.prints), len(a.states), len(a.trans), wall.Seconds())
+	if z := zeroProbes(prop, a.c); len(z) > 0 && len(confirmed) == 0 && a.runs >= 300 {
+		fmt.Fprintf(os.Stderr, "WARNING: reach probes stuck at zero in this batch (profile weakness, not a verdict): %v\n", z)
+	}
 	if len(a.internal) > 0 {
 		for i, m := range a.internal {
 			if i < 10 {
@@ -472,6 +500,16 @@ func cmdCheck(args []string) {
 		exit = 2
 	}
 	os.Exit(exit)
+}
+
+func zeroProbes(prop string, c map[string]int) []string {
+	out := []string{}
+	for _, p := range requiredProbes[prop] {
+		if c[p] == 0 {
+			out = append(out, p)
+		}
+	}
+	return out
 }
 
 func faultCounts(c map[string]int) map[string]int {
@@ -532,6 +570,8 @@ func writeEvidence(prop, tier string, seed int64, a *agg, wall time.Duration, nv
 			"components_real":      []string{"service module (handler, EndBlocker, genesis, keeper, types, gRPC and legacy queriers)", "app.SimApp / BaseApp ABCI (InitChain, BeginBlock, EndBlock, Commit, Query)", "SDK bank, auth, params, mint, distribution, staking, gov, crisis", "rootmulti + IAVL + cachekv + gaskv stores on an in-memory tm-db"},
 			"components_stub":      []string{"transaction runner (ValidateBasic, cache context, tx hash / msg index injection, panic recovery, atomic commit)", "ante handler (signer = 20-byte key-holding sender; no fees, no sequence numbers)", "token keeper = repository's MockTokenKeeper", "mempool, network, block proposer, BFT clock, off-chain providers/consumers/owners/strangers, a foreign module (simulated)"},
 			"known_findings_matched": matched,
+			"required_probes":        requiredProbes[prop],
+			"required_probes_zero":   zeroProbes(prop, a.c),
 			"internal_errors":        len(a.internal),
 		},
 		"assumptions": []string{
